@@ -41,6 +41,9 @@ m = {
         {"name": "E1p", "path": "fsmon/workloads/e1p.py", "serves_properties": ["C05"], "kind_free_text": "client histories on PriorityReqStore (request order oracle by polling)"},
         {"name": "E2", "path": "fsmon/workloads/e2.py", "serves_properties": ["C01", "C02", "C04", "C05", "C06", "C07"], "kind_free_text": "small-scope exhaustive operation sequences on the real stores (stateless DFS by re-execution)"},
         {"name": "E3", "path": "fsmon/workloads/e3.py", "serves_properties": ["C03", "C08", "C09", "C10", "C11", "C15", "C16", "C17", "C18"], "kind_free_text": "random factories under the ledger oracles"},
+        {"name": "E4", "path": "fsmon/workloads/e4.py", "serves_properties": ["C12", "C13"], "kind_free_text": "scripted conveyor producer/consumer"},
+        {"name": "E7", "path": "fsmon/workloads/e7.py", "serves_properties": ["C19"], "kind_free_text": "differential reproducibility driver"},
+        {"name": "E8", "path": "fsmon/workloads/e8.py", "serves_properties": ["C20"], "kind_free_text": "exhaustive configuration matrix and invalid-configuration table"},
         {"name": "E5", "path": "fsmon/workloads/e5.py", "serves_properties": ["C14"], "kind_free_text": "scripted fleet loading / consumption"},
     ],
     "checks": checks,
